@@ -432,6 +432,7 @@ def r5_want_comments(ctx):
     want_vars = set()
     for (n, x) in uses:
         c = getattr(x, '_parent', None)
+        need(not (isinstance(n.ast, ast.Assign) and n.ast.value is x), 'C19.R5: the want text is copied to a local (`%s`), which this rule does not follow' % ctx.src(n.ast))
         is_ind = False
         pre = None
         if isinstance(c, ast.Call) and c.args and c.args[0] is x:
@@ -470,6 +471,13 @@ def r5_want_comments(ctx):
             rep.ob('C19.R5', ctx.loc(f, st), ctx.src(st), from_fmt and nl and guarded,
                    'the comment block follows the source of its own part on a new line' if from_fmt and nl and guarded else
                    'the want comments are not appended (on a new line) to the source text of their own part', anchor=CONV)
+    if not joined:
+        # lost for certain only when nothing in the loop reads the commented text; any other way of joining it is not judged
+        readers = [n for n in g.nodes if not n.dup and n.kind in ('stmt', 'test') and isinstance(n.ast, ast.AST) and graph.in_loop_body(n, part_loop.ast) and
+                   not any(n is u for (u, _) in uses) and any(isinstance(y, ast.Name) and isinstance(y.ctx, ast.Load) and y.id in want_vars for y in ast.walk(n.ast))]
+        inline = [n for (n, x) in uses if not isinstance(n.ast, (ast.Assign, ast.AugAssign)) or not isinstance((n.ast.targets[0] if isinstance(n.ast, ast.Assign) else n.ast.target), ast.Name)
+                  or (n.ast.targets[0] if isinstance(n.ast, ast.Assign) else n.ast.target).id not in want_vars]
+        need(not readers and not [n for n in inline if n.kind == 'stmt'], 'C19.R5: the want comments are joined to the part text in a form this rule does not recognise')
     rep.ob('C19.R5', ctx.loc(f, part_loop.ast), 'want comments reach the body', joined, 'appended to the part text' if joined else 'the want text never reaches the generated body (wants are lost)', anchor=CONV)
 
 
